@@ -280,7 +280,8 @@ def free_cases(n, rnd):
         if lists == "skip":
             h["skipped"] = ["C"]
         elif lists == "allow":
-            h["allowed"] = ["A", "B", "D"]
+            # the allow list in ANY order (the index space is the source's, not the list's)
+            h["allowed"] = rnd.sample(["A", "B", "D"], 3)
         if kind == "shallow":
             h["shallow"] = True
         elif kind == "muts":
